@@ -22,8 +22,8 @@
 typedef mx_scn scn_t;
 
 /* ---- injections ---- */
-enum { INJ_NONE = 0, INJ_PLAIN, INJ_RANDOM, INJ_FOREIGN, INJ_REFLECT, INJ_HSKEY, INJ_HSKEY_OUTER22, INJ_ENCODE, INJ_AUTH_APPDATA, INJ_HSPLAIN, INJ_N };
-static const char *injname[] = { "none", "plaintext-record", "random-body-record", "foreign-connection-record", "reflected-record", "hs-key-sealed-appdata", "hs-key-sealed-appdata-outer22", "encode-before-complete", "peer-sealed-appdata-before-finished", "plaintext-handshake-record" };
+enum { INJ_NONE = 0, INJ_PLAIN, INJ_RANDOM, INJ_FOREIGN, INJ_REFLECT, INJ_HSKEY, INJ_HSKEY_OUTER22, INJ_ENCODE, INJ_AUTH_APPDATA, INJ_HSPLAIN, INJ_REPLAY, INJ_N };
+static const char *injname[] = { "none", "plaintext-record", "random-body-record", "foreign-connection-record", "reflected-record", "hs-key-sealed-appdata", "hs-key-sealed-appdata-outer22", "encode-before-complete", "peer-sealed-appdata-before-finished", "plaintext-handshake-record", "replayed-genuine-record" };
 typedef struct { int kind; int vmaj, vmin; int len; int epoch; } inj_t;
 
 static unsigned char **foreign; static int *foreignlen;   /* app-data records captured from another connection of the same scenario, per direction */
@@ -67,6 +67,9 @@ static void on_app(mx_ep *e, const unsigned char *pt, uint32 len)
         int ok = 0; int p = 0;
         while (p < M.sentlen[dir]) { int l = atoi((const char *) M.sent[dir] + p + 14); if (l <= 0) break; if ((uint32) l == len && !memcmp(M.sent[dir] + p, pt, len)) { ok = 1; break; } p += l; }
         if (!ok) report("foreign-bytes-delivered", e, "datagram len=%u not among honest payloads; first=%.12s", len, len ? (const char *) pt : "");
+        /* ... and the peer sent it once: it must not have been delivered before (e->got = everything delivered so far, also before the fork) */
+        for (size_t q = 0; ok && q + 19 <= e->gotlen; ) { int l = atoi((const char *) e->got + q + 14); if (l <= 0) break;
+            if ((uint32) l == len && q + l <= e->gotlen && !memcmp(e->got + q, pt, len)) { report("replayed-datagram-delivered-again", e, "datagram len=%u first=%.20s was already delivered once", len, (const char *) pt); break; } q += l; }
     } else if (off + len > (size_t) M.sentlen[dir] || memcmp(M.sent[dir] + off, pt, len))
         report("foreign-bytes-delivered", e, "delivered bytes at offset %zu len=%u do not continue the honest stream (sent %d); first=%.12s", off, len, M.sentlen[dir], len ? (const char *) pt : "");
 }
@@ -191,6 +194,14 @@ static int build_injection(mx_conn *k, mx_ep *tgt, const inj_t *in, unsigned cha
         while (mx_rec_at(k->wire[d], k->wirelen[d], off, dtls, &r)) { last = off; lastn = r.hdr + r.len; off += lastn; }
         if (last < 0) return 0;
         memcpy(out, k->wire[d] + last, lastn); return lastn; }
+    case INJ_REPLAY: {
+        /* copies of genuine records the attacker has seen pass: the record delivered to the target last (len 0) / every record delivered to it so
+           far, oldest first (len 1, DTLS: one datagram each) */
+        int d = tgt->role == MX_SERVER ? 0 : 1, off = 0, cnt = 0, last = -1, lastn = 0; mx_rec r;
+        while (cnt < k->delivered[d] && mx_rec_at(k->wire[d], k->wirelen[d], off, dtls, &r)) { last = off; lastn = r.hdr + r.len; off += lastn; cnt++; }
+        if (last < 0 || off > 39000) return 0;
+        if (in->len == 0) { memcpy(out, k->wire[d] + last, lastn); return lastn; }
+        memcpy(out, k->wire[d], off); return off; }
     case INJ_AUTH_APPDATA: {
         /* the (not yet verified) peer itself seals application records under the keys being negotiated, before its Finished was
            processed by the target; several in a row so that DTLS sequence numbers pass the replay window */
@@ -248,7 +259,7 @@ static void child_run(void *a_)
     } else if (a->inj->kind != INJ_NONE) {
         int n = build_injection(k, tgt, a->inj, rec);
         if (n <= 0) { vf_stat("injection_not_applicable", 1); return; }
-        int keyless = a->inj->kind == INJ_PLAIN || a->inj->kind == INJ_RANDOM || a->inj->kind == INJ_FOREIGN || a->inj->kind == INJ_REFLECT || a->inj->kind == INJ_HSPLAIN;
+        int keyless = a->inj->kind == INJ_PLAIN || a->inj->kind == INJ_RANDOM || a->inj->kind == INJ_FOREIGN || a->inj->kind == INJ_REFLECT || a->inj->kind == INJ_HSPLAIN || a->inj->kind == INJ_REPLAY;
         int wasComplete = matrixSslHandshakeIsComplete(tgt->ssl) || tgt->hsDone, wasDead = tgt->dead;
         M.injected = 1; vf_stat("injections_delivered", 1);
         vf_distinct("%s|%s|ca%d|r%d|%s|cut%d|st%d|%s|%d.%d|%d", verclass(M.scn->cfg.ver), M.scn->name, M.scn->cfg.clientAuth, M.scn->resumed, a->target ? "S" : "C", a->cut, tgt->ssl->hsState, injname[a->inj->kind], a->inj->vmaj, a->inj->vmin, a->inj->len);
@@ -306,6 +317,7 @@ static void build_catalogue(int ver)
         catalogue[ncat++] = (inj_t) { INJ_RANDOM, dtls ? 254 : 3, dtls ? (ver == MX_DTLS10 ? 255 : 253) : 3, rl[l], ep };
     catalogue[ncat++] = (inj_t) { INJ_FOREIGN };
     catalogue[ncat++] = (inj_t) { INJ_REFLECT };
+    catalogue[ncat++] = (inj_t) { INJ_REPLAY, 0, 0, 0 }; if (dtls) catalogue[ncat++] = (inj_t) { INJ_REPLAY, 0, 0, 1 };
     catalogue[ncat++] = (inj_t) { INJ_AUTH_APPDATA, 0, 0, 1 }; catalogue[ncat++] = (inj_t) { INJ_AUTH_APPDATA, 0, 0, 9 };
     if (ver == MX_TLS13) { catalogue[ncat++] = (inj_t) { INJ_HSKEY }; catalogue[ncat++] = (inj_t) { INJ_HSKEY_OUTER22 }; }
     for (int i = 0; i < NHSFORGE; i++) {
@@ -472,17 +484,182 @@ static void psk_keyless(void)
         }
 }
 
+/* ==== Part 3: captured genuine DTLS datagrams re-injected by a keyless attacker ====
+ * The one thing a network attacker without keys can always put on the wire is a copy of a datagram it has seen.  After the handshake the
+ * sender emits N numbered, tagged datagrams; the attacker keeps a copy of every one (and of the sender's epoch >= 1 handshake records).
+ * The datagrams reach the receiver in the order of an ARRIVAL PATTERN (in order, pairwise swapped, reversed blocks of 8/31/32/33, stragglers
+ * held back by 3/31/32/33/63/64/65 positions, bursts of 31/32/33/40/63/64/65/70 datagrams lost for good or turning up late, seeded random
+ * delays).  After EVERY arrival the attacker re-injects every datagram that has arrived so far and is at most 80 sequence numbers behind the
+ * newest one (plus every 8th older one), i.e. a copy at every distance 0..80, in ascending and descending order of distance alternately.
+ * (A forged record with a sequence number ahead of the newest one was tried as a further pattern: the library answers a record of the
+ * current epoch that fails its MAC with a fatal alert, so the session is gone after the first one - nothing left to replay into.)
+ * Oracle: every honest payload is reported to the application AT MOST ONCE, and whatever is reported is byte-identical to an honest payload
+ * of this connection and direction (a second report is attacker-sent bytes reported as received application data: the peer produced that
+ * record once).  Control: the receiver is still alive after the storm and a fresh honest datagram is delivered exactly once; in the
+ * in-order pattern every one of the N payloads was delivered exactly once. */
+enum { RP_INORDER = 0, RP_SWAP, RP_REV8, RP_REV31, RP_REV32, RP_REV33, RP_STRAGGLER_NEAR, RP_STRAGGLER_EDGE32, RP_STRAGGLER_EDGE64, RP_LOST, RP_LATE, RP_HSCOPIES, RP_RANDOM, RP_N };
+static const char *rpname[] = { "in-order", "swapped-pairs", "reversed-blocks-8", "reversed-blocks-31", "reversed-blocks-32", "reversed-blocks-33", "stragglers-3",
+                                "stragglers-31-32-33", "stragglers-63-64-65", "lost-bursts", "late-bursts", "in-order+handshake-flight-copies", "random-reordering" };
+typedef struct { int ver; uint16_t suite; int rcv; int pat; int n; int rseed; char desc[160]; } rpcase;
+#define RP_MAXN 480
+static struct {
+    const rpcase *c; int n; unsigned char *dg[RP_MAXN + 2]; int dglen[RP_MAXN + 2]; int plen[RP_MAXN + 2];   /* captured datagrams, payload lengths */
+    int seen[RP_MAXN + 2]; int arrived[RP_MAXN + 2]; unsigned long long seq[RP_MAXN + 2];
+    unsigned long long newest; int cur; int curIsCopy; unsigned long long curDist; int nviol; int afterArrivals; int dir;
+} R;
+static void rp_report(const char *what, mx_ep *e, const char *fmt, ...)
+{
+    char key[200], msg[600]; va_list ap; va_start(ap, fmt); vsnprintf(msg, sizeof msg, fmt, ap); va_end(ap);
+    const mx_suite_t *su = mx_suite_by_id(R.c->suite);
+    snprintf(key, sizeof key, "c01:%s:%s:%s:%s", what, mx_vername[R.c->ver], e->role == MX_SERVER ? "server" : "client", su && su->aead ? "aead" : "cbc");
+    if (R.nviol++ < 4) vf_violation(key, R.c->desc, "%s | arrival pattern %s, %d arrivals so far, newest record sequence number %llu", msg, rpname[R.c->pat], R.afterArrivals, R.newest);
+}
+static void rp_on_app(mx_ep *e, const unsigned char *pt, uint32 len)
+{
+    vf_stat("appdata_deliveries", 1);
+    if (!matrixSslHandshakeIsComplete(e->ssl)) rp_report("appdata-before-complete", e, "APP_DATA len=%u on an endpoint that is not complete", len);
+    int serial = -1; unsigned char want[400];
+    if (len >= 20 && len < sizeof want) serial = atoi((const char *) pt + 7);
+    if (serial < 0 || serial > R.n + 1 || (int) len != R.plen[serial] || (mx_payload(want, len, 0x0c01, R.dir, serial), memcmp(want, pt, len))) {
+        rp_report("foreign-bytes-delivered", e, "datagram len=%u is not an honest payload of this connection; first=%.20s", len, len ? (const char *) pt : ""); return; }
+    if (++R.seen[serial] > 1)
+        rp_report("replayed-datagram-delivered-again", e, "payload #%d (record sequence number %llu) was reported to the application %d times: the second report came from %s "
+                  "injected %llu sequence numbers behind the newest record", serial, R.seq[serial], R.seen[serial], R.curIsCopy ? "a copy of the captured datagram" : "the honest datagram itself, after a copy of it had been accepted,", R.curDist);
+    else if (R.curIsCopy) vf_stat("replay_copies_delivered_first", 1);   /* cannot happen: only datagrams that arrived before are copied */
+}
+static void rp_inject(mx_ep *rcv, int i, int copy)
+{
+    if (rcv->dead) return;
+    R.cur = i; R.curIsCopy = copy; R.curDist = R.newest >= R.seq[i] ? R.newest - R.seq[i] : 0;
+    if (copy) { vf_stat("replay_injections", 1); if (R.curDist <= 80) vf_distinct("replay|%s|%04x|%s|%s|d%llu", mx_vername[R.c->ver], R.c->suite, rcv->role ? "S" : "C", rpname[R.c->pat], R.curDist); }
+    mx_feed(rcv, R.dg[i], R.dglen[i]);
+    if (!copy && R.seq[i] > R.newest) R.newest = R.seq[i];
+    if (rcv->wantTake) { unsigned char *b; mx_take(rcv, &b); free(b); }     /* whatever the receiver answers goes nowhere */
+}
+/* the arrival order of the N honest datagrams (index 1..N); datagrams that are not listed are lost */
+static int rp_schedule(const rpcase *c, int *o)
+{
+    int n = c->n, m = 0;
+    switch (c->pat) {
+    case RP_INORDER: case RP_HSCOPIES: for (int i = 1; i <= n; i++) o[m++] = i; break;
+    case RP_SWAP: for (int i = 1; i <= n; i += 2) { if (i + 1 <= n) o[m++] = i + 1; o[m++] = i; } break;
+    case RP_REV8: case RP_REV31: case RP_REV32: case RP_REV33: {
+        int b = c->pat == RP_REV8 ? 8 : c->pat == RP_REV31 ? 31 : c->pat == RP_REV32 ? 32 : 33;
+        for (int s = 1; s <= n; s += b) { int e = s + b - 1 > n ? n : s + b - 1; for (int i = e; i >= s; i--) o[m++] = i; }
+        break; }
+    case RP_STRAGGLER_NEAR: case RP_STRAGGLER_EDGE32: case RP_STRAGGLER_EDGE64: {
+        /* every 7th datagram is held back and turns up h positions late */
+        static const int hs[3][3] = { { 3, 3, 3 }, { 31, 32, 33 }, { 63, 64, 65 } }; const int *h = hs[c->pat - RP_STRAGGLER_NEAR];
+        int due[RP_MAXN + 80]; memset(due, 0, sizeof due);
+        for (int i = 1; i <= n; i++) {
+            if (i % 7 == 5) { int at = i + h[(i / 7) % 3]; if (at > n) at = n; due[at] = due[at] ? due[at] : i; if (due[at] != i) o[m++] = i; }
+            else o[m++] = i;
+            if (due[i] && due[i] != i) o[m++] = due[i];
+        }
+        break; }
+    case RP_LOST: case RP_LATE: {
+        /* runs of 6 delivered datagrams separated by bursts of g lost ones; RP_LATE: each lost burst turns up (in order) after the next run */
+        static const int gs[] = { 31, 32, 33, 40, 63, 64, 65, 70 }; int i = 1, gi = 0;
+        while (i <= n) {
+            for (int j = 0; j < 6 && i <= n; j++) o[m++] = i++;
+            int g = gs[gi++ % 8], s = i; i += g; if (i > n + 1) i = n + 1;
+            if (c->pat == RP_LATE) { for (int j = 0; j < 6 && i <= n; j++) o[m++] = i++; for (int j = s; j < s + g && j <= n; j++) o[m++] = j; }
+        }
+        break; }
+    case RP_RANDOM: {
+        /* every datagram is delayed by a seeded number of positions (mostly small, sometimes across the window edges) */
+        vf_rng r; vf_rng_init(&r, vf_seed, 0x5e9 + c->rseed); static int key_[RP_MAXN + 1];
+        for (int i = 1; i <= n; i++) { int d = vf_below(&r, 10) < 7 ? (int) vf_below(&r, 4) : (int) vf_below(&r, 70); key_[i] = 2 * (i + d) + 1; o[m++] = i; }
+        for (int a = 1; a < m; a++) { int v = o[a], b = a - 1; while (b >= 0 && key_[o[b]] > key_[v]) { o[b + 1] = o[b]; b--; } o[b + 1] = v; }
+        break; }
+    }
+    return m;
+}
+static void rp_child(void *a_)
+{
+    const rpcase *c = a_; int n = c->n;
+    vf_stat("cases", 1); vf_stat("replay_cases", 1);
+    memset(&R, 0, sizeof R); R.c = c; R.n = n;
+    mx_cfg cfg; memset(&cfg, 0, sizeof cfg); cfg.ver = c->ver; cfg.suite = c->suite;
+    mx_conn k; if (mx_conn_open(&k, &cfg, NULL) != 0) { vf_incon("replay: open %s", c->desc); return; }
+    mx_conn_run(&k, NULL, NULL, 200);
+    if (!mx_conn_established(&k)) { vf_violation("c01:harness:honest-handshake-failed", c->desc, "honest DTLS handshake does not complete"); return; }
+    mx_ep *rcv = c->rcv == MX_SERVER ? &k.s : &k.c, *snd = c->rcv == MX_SERVER ? &k.c : &k.s;
+    int dir = c->rcv == MX_SERVER ? 0 : 1; R.dir = dir;
+    k.c.on_app = rp_on_app; k.s.on_app = rp_on_app;
+    /* index 0: the sender's protected handshake record(s) of the current epoch (its Finished), captured off the wire */
+    { int off = 0; mx_rec r; R.dg[0] = NULL;
+      while (mx_rec_at(k.wire[dir], k.wirelen[dir], off, 1, &r)) { if (r.epoch >= 1 && r.type == 22) { R.dg[0] = k.wire[dir] + off; R.dglen[0] = r.hdr + r.len; R.seq[0] = r.seq; } off += r.hdr + r.len; }
+      R.plen[0] = -1; R.arrived[0] = R.dg[0] != NULL; }
+    int hswire = k.wirelen[dir];
+    /* the sender produces all N datagrams (+1 for the control); the attacker copies each as it passes */
+    for (int i = 1; i <= n + 1; i++) {
+        unsigned char p[400]; int len = 24 + (i * 7) % 90; mx_rec r;
+        mx_payload(p, len, 0x0c01, dir, i);
+        if (mx_send(snd, p, len) <= 0) { vf_incon("replay: honest encode failed %s", c->desc); return; }
+        R.dglen[i] = mx_take(snd, &R.dg[i]); R.plen[i] = len;
+        if (!mx_rec_at(R.dg[i], R.dglen[i], 0, 1, &r) || r.hdr + r.len != R.dglen[i] || r.type != 23) { vf_incon("replay: one send, not one record %s", c->desc); return; }
+        R.seq[i] = r.seq;
+    }
+    int *o = malloc(sizeof(int) * (RP_MAXN + 200)), m = rp_schedule(c, o);
+    for (int a = 0; a < m && !rcv->dead; a++) {
+        rp_inject(rcv, o[a], 0); R.arrived[o[a]] = 1; R.afterArrivals++; vf_stat("replay_honest_arrivals", 1);
+        if (c->pat == RP_HSCOPIES && a % 5 == 2) {
+            /* first a copy of every record of the sender's handshake flights (all epochs: hellos, key exchange, ChangeCipherSpec, Finished), one datagram each */
+            int off = 0; mx_rec r; R.cur = 0; R.curIsCopy = 1; R.curDist = 0;
+            while (off < hswire && mx_rec_at(k.wire[dir], hswire, off, 1, &r) && !rcv->dead) {
+                vf_stat("replay_handshake_record_copies", 1); mx_feed(rcv, k.wire[dir] + off, r.hdr + r.len); off += r.hdr + r.len;
+                if (rcv->wantTake) { unsigned char *b; mx_take(rcv, &b); free(b); } }
+        }
+        /* the attacker's turn: a copy of everything that has arrived so far and is at most 80 sequence numbers behind the newest (and of every
+           8th older one), nearest first / farthest first alternately */
+        for (int j = 0; j <= n; j++) { int i = (a & 1) ? j : n - j; if (R.arrived[i] && (R.newest < R.seq[i] + 81 || i % 8 == 0)) rp_inject(rcv, i, 1); }
+    }
+    /* control */
+    int alive = !rcv->dead && !rcv->closeReq && !(rcv->ssl->flags & SSL_FLAGS_ERROR), before = rcv->nApp;
+    if (alive) { rp_inject(rcv, n + 1, 0); R.arrived[n + 1] = 1; rp_inject(rcv, n + 1, 1); }
+    int delivered = 0, expected = 0; for (int i = 1; i <= n; i++) { delivered += R.seen[i] > 0; expected += R.arrived[i]; }
+    if (vf_verbose) fprintf(stderr, "  replay %s: %d arrivals (%d scheduled), %d distinct payloads delivered, alive=%d control=%d violations=%d\n", c->desc, R.afterArrivals, m, delivered, alive, R.seen[n + 1], R.nviol);
+    if (!R.nviol) {
+        if (!alive || R.seen[n + 1] != 1 || rcv->nApp != before + 1) vf_violation("c01:harness:replay-control-failed", c->desc, "receiver alive=%d after the copies; fresh honest datagram delivered %d times", alive, R.seen[n + 1]);
+        else if ((c->pat == RP_INORDER || c->pat == RP_HSCOPIES || c->pat == RP_SWAP || c->pat == RP_REV8 || c->pat == RP_STRAGGLER_NEAR) && delivered != n) vf_violation("c01:harness:replay-control-failed", c->desc, "%d of %d honest datagrams delivered although none arrived outside the window", delivered, n);
+        else vf_stat("replay_controls_ok", 1);
+    }
+    vf_statf(delivered, "replay_payloads_delivered_once");
+    free(o);
+}
+static void replay_part(void)
+{
+    static const struct { int ver; uint16_t suite; } q[] = { { MX_DTLS10, 0x008c }, { MX_DTLS12, 0x00ae }, { MX_DTLS12, 0x009c } };
+    struct { int ver; uint16_t suite; } g[64]; int ng = 0;
+    if (vf_thorough || vf_case) { for (int v = MX_DTLS10; v <= MX_DTLS12; v++) for (int i = 0; i < MX_NSUITES; i++) if (mx_suite_ok_for(&mx_suites[i], v) && ng < 64) { g[ng].ver = v; g[ng].suite = mx_suites[i].id; ng++; } }
+    else for (int i = 0; i < 3; i++) { g[ng].ver = q[i].ver; g[ng].suite = q[i].suite; ng++; }
+    for (int gi = 0; gi < ng; gi++) for (int rcv = 1; rcv >= 0; rcv--) for (int pat = 0; pat < RP_N; pat++) for (int rep = 0; rep < (pat == RP_RANDOM ? (vf_thorough ? 6 : 2) : 1); rep++) {
+        long idx = g_case_idx++;
+        if (!vf_mine(idx)) continue;
+        rpcase c = { g[gi].ver, g[gi].suite, rcv, pat, pat == RP_LOST || pat == RP_LATE ? 450 : vf_thorough ? 150 : 76, rep };
+        if (vf_case) { int n_ = 0; const char *p_ = strstr(vf_case, " n="); if (p_) n_ = atoi(p_ + 3); if (n_ > 0 && n_ <= RP_MAXN) c.n = n_; }
+        snprintf(c.desc, sizeof c.desc, "replay ver=%s suite=%04x rcv=%s pat=%s rep=%d n=%d", mx_vername[c.ver], c.suite, rcv ? "server" : "client", rpname[pat], rep, c.n);
+        if (vf_case && strcmp(vf_case, c.desc)) continue;
+        if (gi == 0 && rcv == 1 && pat < 3) vf_sample("%s", c.desc);
+        mx_entropy_seed(vf_seed + 9000 + idx);
+        vf_fork_case(rp_child, &c, "c01", c.desc, 120);
+    }
+}
+
 int main(int argc, char **argv)
 {
     vf_init(argc, argv); mx_global_init(); mx_keys_load();
     mx_scn_build(vf_thorough);
     int pskonly = !strcmp(vf_arg("--part", "all"), "psk");
-    if (vf_case) { if (!strncmp(vf_case, "psk ", 4)) pskonly = 1; else if (pskonly) return 0; }
-    for (int i = 0; i < mx_nscn && !pskonly; i++) for (int target = 0; target < 2; target++) {
+    int replayonly = !strcmp(vf_arg("--part", "all"), "replay");
+    if (vf_case) { if (!strncmp(vf_case, "psk ", 4)) pskonly = 1; else if (!strncmp(vf_case, "replay ", 7)) replayonly = 1; else if (pskonly || replayonly) return 0; }
+    for (int i = 0; i < mx_nscn && !pskonly && !replayonly; i++) for (int target = 0; target < 2; target++) {
         mx_entropy_seed(vf_seed + i * 2 + target);
         run_scenario(&mx_scns[i], target);
     }
-    if (!vf_case || pskonly) psk_keyless();
+    if ((!vf_case || pskonly) && !replayonly) psk_keyless();
+    if ((!vf_case || replayonly) && !pskonly) replay_part();
     mx_keys_free(); matrixSslClose();
     vf_flush();
     return 0;
